@@ -217,6 +217,9 @@ class Simplex:
         # orignial inequalities inserted into solver
         self.original = []
 
+        # A constraint 0 * x >= b (or <= b) that does not hold, if one was added
+        self.false_ineq = None
+
         # basic variable that can't find a suitable value
         self.wrong_var = None
 
@@ -318,6 +321,9 @@ class Simplex:
                     if var_name not in self.bound:
                         self.bound[var_name] = (-math.inf, math.inf)
 
+                elif lower_bound > 0: # 0 * x >= b with b > 0 does not hold
+                    self.false_ineq = ineq
+
             else: # a * x + b * y + ... >= c
                 _vars = collect_vars_from_ineq(ineq)
                 # push all variables in lhs into solver
@@ -389,6 +395,9 @@ class Simplex:
                         self.nbasic_basic[var_name].add(s)
                     if var_name not in self.bound.keys():
                         self.bound[var_name] = (-math.inf, math.inf)
+
+                elif upper_bound < 0: # 0 * x <= b with b < 0 does not hold
+                    self.false_ineq = ineq
 
             else: # a * x + b * y + ... <= c
                 _vars = collect_vars_from_ineq(ineq)
@@ -583,6 +592,9 @@ class Simplex:
                     return UNSAT
 
     def handle_assertion(self):
+        if self.false_ineq is not None:
+            raise UNSATException("%s does not hold." % str(self.false_ineq))
+
         for assertion in self.atom:
             if isinstance(assertion, leq_atom):
                 self.assert_upper(assertion.var_name, assertion.upper)
